@@ -627,7 +627,8 @@ func PrefixDigestRule(w *World, r *Result, rule string, tainted map[ssa.Value]bo
 					continue // reset to ""
 				}
 				found = true
-				src := newSrcSet()
+				src := newDeepSrcSet(w)
+				src.opaque = map[string]bool{"os.ReadFile": true}
 				backward(st.Val, src, map[ssa.Value]bool{})
 				var names []string
 				for n := range src.calls {
@@ -655,10 +656,33 @@ func PrefixDigestRule(w *World, r *Result, rule string, tainted map[ssa.Value]bo
 						}
 					}
 				}
+				// … or the argument of a one-shot digest function (sha256.Sum256(content)), possibly in a
+				// helper that receives the content
+				for n, calls := range src.calls {
+					if !strings.Contains(n, "Sum") || strings.HasPrefix(n, "invoke:") {
+						continue
+					}
+					for _, c := range calls {
+						if len(c.Call.Args) != 1 {
+							continue
+						}
+						in := src.resolve(c.Call.Args[0])
+						if ex, ok := rootOf(in, 0).(*ssa.Extract); ok && ex.Index == 0 {
+							if rc, ok := ex.Tuple.(*ssa.Call); ok && calleeName(rc) == "os.ReadFile" && !tainted[in] {
+								inputOK = true
+							}
+						}
+						if ex, ok := in.(*ssa.Extract); ok && ex.Index == 0 {
+							if rc, ok := ex.Tuple.(*ssa.Call); ok && calleeName(rc) == "os.ReadFile" && !tainted[in] {
+								inputOK = true
+							}
+						}
+					}
+				}
 				bad := []string{}
 				for _, n := range names {
 					switch {
-					case strings.Contains(n, "sha256"), strings.Contains(n, "Sum"), n == "fmt.Sprintf", strings.HasPrefix(n, "builtin:"), strings.Contains(n, "hash"):
+					case strings.Contains(n, "sha256"), strings.Contains(n, "Sum"), n == "fmt.Sprintf", strings.HasPrefix(n, "builtin:"), strings.Contains(n, "hash"), n == "encoding/hex.EncodeToString", n == "os.ReadFile":
 					default:
 						bad = append(bad, n)
 					}
